@@ -135,7 +135,7 @@ pub fn generate(prop: &str, tier: &str, seed: u64, rec: &mut Rec) {
         "C02" => gen_writes(rec, &mut rng, 700 * scale, false),
         "C03" => {
             gen_writes(rec, &mut rng, 900 * scale, true);
-            gen_writes_exhaustive(rec, if thorough { 6 } else { 4 });
+            gen_writes_exhaustive(rec, if thorough { 5 } else { 4 });
         }
         "C05" => gen_logs(rec, &mut rng, 300 * scale, thorough),
         "C06" => gen_boxes(rec, &mut rng, scale),
